@@ -25,13 +25,15 @@ pub fn check(tier: Tier) -> Check {
     parts.push(Part::new("C07/dispatch", json!({"depth": tier.pick(5, 6), "ids": [255, 127]}), 0, tier.pick(30, 400)));
     parts.push(Part::new("C07/dispatch", json!({"depth": tier.pick(5, 6), "ids": [65535, 16383]}), 0, tier.pick(30, 400)));
     parts.push(Part::new("C07/dispatch", json!({"depth": tier.pick(4, 5), "ids": [32767, 2097151]}), 0, tier.pick(30, 400)));
+    // two subscriptions whose identifiers differ in exactly one bit (all 28)
+    parts.push(Part::new("C07/bits", json!({}), 0, 120));
     // four established subscriptions: stream drops / lag in every order, messages to every one
     parts.push(Part::new("C07/many", json!({"subs": 4, "depth": tier.pick(5, 6)}), tier.pick(0, 1), tier.pick(30, 400)));
     Check {
         also_rel: false,
         property: "C07",
         level: "model_checking",
-        rule: "all event sequences over <=2 subscribe calls, SUBACKs, stream() calls, inbound PUBLISH (QoS 0/1/2 x subscription identifier absent / first / second / unknown / both / repeated adjacently and non-adjacently / mixed with an unknown one), stream drops, an unsubscribe, with lagging (held) and spuriously polled streams as deviations; plus four established subscriptions with stream drops and messages to each in every order, and a sweep over message field combinations; non-trivial = at least one message was dispatched to a stream".into(),
+        rule: "all event sequences over <=2 subscribe calls, SUBACKs, stream() calls, inbound PUBLISH (QoS 0/1/2 x subscription identifier absent / first / second / unknown / both / repeated adjacently and non-adjacently / mixed with an unknown one), stream drops, an unsubscribe, with lagging (held) and spuriously polled streams as deviations; plus two subscriptions whose identifiers differ in exactly one bit (bit 0..27, two base values) with messages to each, to both and to an unregistered neighbour; plus four established subscriptions with stream drops and messages to each in every order, and a sweep over message field combinations; non-trivial = at least one message was dispatched to a stream".into(),
         assumptions: vec![
             "acknowledgements written by the client are not compared here (C08)".into(),
             "QoS 2 identifiers are not repeated here (C09)".into(),
@@ -146,7 +148,54 @@ fn many(name: String, params: Value) -> Scenario {
     })
 }
 
+/// Two subscriptions whose identifiers differ in exactly one bit: the lookup must use all 28 bits.
+fn bits(name: String, params: Value) -> Scenario {
+    Box::new(move |chz, ex| {
+        let k = chz.choose(28) as u32;
+        let base = [1u32, 0x0555_5555][chz.choose(2)];
+        let other = base ^ (1 << k);
+        let swap = chz.choose(2) == 1;
+        let mut sys = Sys::new("C07", &name, chz);
+        sys.params = params.clone();
+        sys.m.check_client_acks = false;
+        sys.bring_up(vec![]);
+        if other == 0 || other > 268_435_455 {
+            return sys.report(ex, &[]);
+        }
+        let (first, second) = if swap { (other, base) } else { (base, other) };
+        for (i, id) in [first, second].into_iter().enumerate() {
+            sys.w.handle().verif_set_ids(10 + i as u16, id);
+            sys.events.push(format!("PresetSubId({})", id));
+            sys.apply(Ev::Start(OpSpec::Subscribe(SubscribeSpec::simple(&format!("s/{}", i)))));
+            if sys.dead {
+                return sys.report(ex, &[]);
+            }
+            let ack = sys.ack_for(i, 0, "").unwrap();
+            sys.apply(Ev::Deliver(ack));
+            sys.apply(Ev::TakeStream(i));
+        }
+        // a third identifier that is not registered: one more bit away from the first
+        let stranger = {
+            let x = first ^ (1 << ((k + 1) % 28));
+            if x == 0 || x == second || x > 268_435_455 { first ^ (1 << ((k + 2) % 28)) } else { x }
+        };
+        sys.apply(Ev::Deliver(inbound(0, false, 0, &[second], "to-second")));
+        sys.apply(Ev::Deliver(inbound(1, false, 7, &[first], "to-first")));
+        sys.apply(Ev::Deliver(inbound(0, false, 0, &[first, second], "to-both")));
+        sys.apply(Ev::Deliver(inbound(0, false, 0, &[stranger], "to-nobody")));
+        sys.apply(Ev::Deliver(inbound(2, false, 8, &[second, stranger, first], "to-both-and-nobody")));
+        sys.apply(Ev::DropStream(0));
+        sys.apply(Ev::Deliver(inbound(0, false, 0, &[first], "to-dropped")));
+        sys.apply(Ev::Deliver(inbound(0, false, 0, &[second], "to-second-again")));
+        sys.finish();
+        sys.report(ex, &["message-dispatched"]);
+    })
+}
+
 pub fn scenario(name: &str, params: &Value) -> Scenario {
+    if name == "C07/bits" {
+        return bits(name.to_string(), params.clone());
+    }
     if name == "C07/many" {
         return many(name.to_string(), params.clone());
     }
